@@ -220,7 +220,7 @@ Theorem C14_builtin_names_table : forall c, nthN BUILTIN_NAMES c = builtin_name 
 Proof. exact builtin_table. Qed.
 
 Theorem C14_defined_names_in_order_xls : forall show_f64 sheets gs names xtis, forallb wf_grec gs = true ->
-  xls_read_names show_f64 sheets (map enc_grec gs) = Ok (names, xtis) ->
+  xls_read_names show_f64 sheets (flat_map enc_grec gs) = Ok (names, xtis) ->
   map fst names = map lb_logical (lbls_of gs) /\ xtis = xtis_of gs.
 Proof. exact defined_names_in_order_xls. Qed.
 
@@ -229,10 +229,10 @@ Proof. exact defined_names_in_order_xls. Qed.
    after them included) — through C14_rpn_correct_xls.  Former known class K_XLS_NAME_FORMULA. *)
 Theorem C14_defined_name_text_is_render_xls : forall show_f64 sheets gs names xtis i d e,
   forallb wf_grec gs = true ->
-  xls_read_names show_f64 sheets (map enc_grec gs) = Ok (names, xtis) ->
+  xls_read_names show_f64 sheets (flat_map enc_grec gs) = Ok (names, xtis) ->
   nth_error (lbls_of gs) i = Some d -> lb_rgce d = encode_xls e ->
   N.of_nat (length (encode_xls e)) < 65536 ->
-  let env := {| xe_sheets := map sheet_text sheets; xe_names := map lb_logical (lbls_of gs); xe_xtis := xtis_of gs; xe_base := None |} in
+  let env := {| xe_sheets := sheets; xe_names := map lb_logical (lbls_of gs); xe_xtis := xtis_of gs; xe_base := None |} in
   wf_xls env e = true ->
   nth_error names i = Some (lb_logical d, render_xls show_f64 env e).
 Proof. exact defined_name_text_is_render_xls. Qed.
@@ -245,7 +245,7 @@ Theorem C14_name_index_stable : forall show_f64 ext ds r i d,
 Proof. exact name_index_stable_xlsb. Qed.
 
 Theorem C14_name_index_stable_xls : forall show_f64 sheets gs names xtis i d, forallb wf_grec gs = true ->
-  xls_read_names show_f64 sheets (map enc_grec gs) = Ok (names, xtis) ->
+  xls_read_names show_f64 sheets (flat_map enc_grec gs) = Ok (names, xtis) ->
   nth_error (lbls_of gs) i = Some d ->
   spec_name (map fst names) (N.of_nat i + 1) = lb_logical d.
 Proof. exact name_index_stable_xls. Qed.
@@ -257,39 +257,165 @@ Theorem C14_ptgname_is_ith_record_xlsb : forall show_f64 ext ds r i d k,
     (encode_xlsb (EName k (N.of_nat i + 1))) = Ok (nr_name d).
 Proof. exact ptgname_is_ith_record_xlsb. Qed.
 
+(* audit 2, XLSB-2 (repaired): the text of an xlsb defined name is the rendering of its expression
+   against the names of ALL BrtName records — a name may use one stored after it (Excel stores the
+   names sorted); before the fix each name was decoded against the names read so far, and the spec
+   said the same *)
+Theorem C14_defined_name_text_is_render_xlsb : forall show_f64 ext ds r i d e,
+  spec_names_xlsb show_f64 ext [] ds = Ok r -> nth_error ds i = Some d ->
+  nr_rgce d = encode_xlsb e ->
+  wf_xlsb {| be_sheets := ext; be_names := map nr_name ds; be_base := None |} e = true ->
+  nth_error r i = Some (nr_name d, render_xlsb show_f64 {| be_sheets := ext; be_names := map nr_name ds; be_base := None |} e).
+Proof. exact defined_name_text_is_render_xlsb. Qed.
+
 Theorem C14_ptgname_is_ith_record_xls : forall show_f64 sheets gs names xtis i d k,
   forallb wf_grec gs = true ->
-  xls_read_names show_f64 sheets (map enc_grec gs) = Ok (names, xtis) ->
+  xls_read_names show_f64 sheets (flat_map enc_grec gs) = Ok (names, xtis) ->
   nth_error (lbls_of gs) i = Some d -> N.of_nat i + 1 < 4294967296 ->
   xls_parse_formula show_f64 {| xe_sheets := sheets; xe_names := map fst names; xe_xtis := xtis; xe_base := None |}
     (frame_xls (encode_xls (EName k (N.of_nat i + 1)))) = Ok (lb_logical d).
 Proof. exact ptgname_is_ith_record_xls. Qed.
 
-(* 3-D references go through the XTI table: entry i names the sheet its firstSheet field points to *)
+(* 3-D references go through the XTI table: entry i names the sheet its firstSheet field points to, or
+   the span of sheets firstSheet … lastSheet (C14_resolve_xti_sheet_text / _span_text below) *)
 Theorem C14_sheet3d_through_xti_xlsb : forall sheets xtis i x nm,
   nth_error xtis i = Some x ->
   spec_sheet_xlsb {| be_sheets := spec_extern_xlsb sheets xtis; be_names := nm; be_base := None |} (N.of_nat i)
-  = resolve_xti sheets (snd (fst x)).
+  = resolve_xti sheets (snd (fst x)) (snd x).
 Proof. exact sheet3d_through_xti_xlsb. Qed.
 
-(* xls: the table handed to the decoder (fmla_sheet_names) holds each sheet name as formula text writes
-   it in front of '!' — [sheet_text], the grammar's rule: bare for a word, else between apostrophes
-   with apostrophes doubled (audit G7, repaired) *)
+(* xls: a 3-D token names the sheet itabFirst of the ixti-th XTI of the file — all EXTERNSHEET records and
+   their CONTINUE records concatenated (audit 2, XLS-5, repaired: the continuation used to be ignored) —
+   as formula text writes it in front of '!' ([sheet_text], the grammar's rule: bare for a word, else
+   between apostrophes with apostrophes doubled: audit G7, repaired); when itabLast names another sheet,
+   the span First:Last ([span_text]: audit G6, repaired — itabLast used to be ignored and the spec said
+   the same) *)
 Theorem C14_sheet3d_through_xti_xls : forall show_f64 sheets gs names xtis i x nm, forallb wf_grec gs = true ->
-  xls_read_names show_f64 sheets (map enc_grec gs) = Ok (names, xtis) ->
-  nth_error (xtis_of gs) i = Some x -> snd (fst x) < 32768 ->
-  spec_sheet_xls {| xe_sheets := map quote_sheet_name sheets; xe_names := nm; xe_xtis := xtis; xe_base := None |} (N.of_nat i)
-  = match nthN sheets (snd (fst x)) with Some s => sheet_text s | None => lit "#REF" end.
+  xls_read_names show_f64 sheets (flat_map enc_grec gs) = Ok (names, xtis) ->
+  nth_error (xtis_of gs) i = Some x -> snd (fst x) < 32768 -> snd x < 32768 ->
+  spec_sheet_xls {| xe_sheets := sheets; xe_names := nm; xe_xtis := xtis; xe_base := None |} (N.of_nat i)
+  = match nthN sheets (snd (fst x)), nthN sheets (snd x) with
+    | Some a, Some b => if snd (fst x) =? snd x then sheet_text a else span_text a b
+    | Some a, None => sheet_text a
+    | None, _ => lit "#REF"
+    end.
 Proof. exact sheet3d_through_xti_xls. Qed.
 
-(* the quoting the code applies is the grammar's, for every name *)
+(* the quoting the code applies is the grammar's, for every name and every pair of names *)
 Theorem C14_sheet_name_quoting : forall s, quote_sheet_name s = sheet_text s.
 Proof. exact quote_sheet_name_spec. Qed.
+Theorem C14_sheet_span_quoting : forall a b, quote_sheet_span a b = span_text a b.
+Proof. exact quote_sheet_span_spec. Qed.
+(* the decoder's own lookup is the spec's *)
+Theorem C14_sheet_name_xls_is_spec : forall env ix, sheet_name_xls env ix = spec_sheet_xls env ix.
+Proof. exact sheet_name_xls_spec. Qed.
 
-(* xlsb: an XTI pointing at a sheet of this workbook resolves to that sheet's formula text *)
+(* xlsb: an XTI pointing at a sheet of this workbook resolves to that sheet's formula text, one spanning
+   two different sheets of it to First:Last *)
 Theorem C14_resolve_xti_sheet_text : forall sheets first s, first < 2147483648 ->
-  nthN sheets first = Some s -> resolve_xti sheets first = sheet_text s.
+  nthN sheets first = Some s -> resolve_xti sheets first first = sheet_text s.
 Proof. exact resolve_xti_sheet_text. Qed.
+Theorem C14_resolve_xti_span_text : forall sheets first last s t, first < 2147483648 -> last < 2147483648 ->
+  first <> last -> nthN sheets first = Some s -> nthN sheets last = Some t ->
+  resolve_xti sheets first last = span_text s t.
+Proof. exact resolve_xti_span_text. Qed.
+
+(* ---------------------------------------------------------------- supporting links (iSupBook) *)
+(* What an XTI points INTO is its supporting link: xls, the iSupBook-th SupBook record of the globals
+   ([links_of]); xlsb, the externalLink-th record between BrtBeginExternals and BrtExternSheet
+   (BrtSupBookSrc / BrtSupSelf / BrtSupSame / BrtSupAddin in any order).  itabFirst / itabLast are sheets of
+   THIS workbook exactly when the link is SupSelf / SupSame; through a link to another workbook the full
+   spec writes [n]Sheet!A1 ([sheet_through_link]).
+   KNOWN FINDING K_EXTERN_BOOK: neither reader looks at the supporting links or at iSupBook — a reference
+   into another workbook comes out with the name of a sheet of this workbook.  Class [known_C14] (computable):
+   the expression goes through an XTI whose link is not this workbook.  Outside the class the full spec holds
+   (the four theorems below); inside it is refuted (C14_refuted_extern_xls / _xlsb). *)
+Theorem C14_rpn_correct_links_xls : forall show_f64 links env e,
+  wf_xls env e = true -> N.of_nat (length (encode_xls e)) < 65536 ->
+  known_C14 links (xe_xtis env) e = None ->
+  xls_parse_formula show_f64 env (frame_xls (encode_xls e)) = Ok (render_xls_links show_f64 links env e).
+Proof. exact rpn_correct_links_xls. Qed.
+
+Theorem C14_rpn_correct_links_xlsb : forall show_f64 sheets links xtis nm base e,
+  wf_xlsb {| be_sheets := spec_extern_xlsb sheets xtis; be_names := nm; be_base := base |} e = true ->
+  known_C14 links xtis e = None ->
+  xlsb_parse_formula show_f64 {| be_sheets := spec_extern_xlsb sheets xtis; be_names := nm; be_base := base |}
+    (encode_xlsb e)
+  = Ok (render_xlsb show_f64 {| be_sheets := spec_extern_links_xlsb sheets links xtis; be_names := nm; be_base := base |} e).
+Proof. exact rpn_correct_links_xlsb. Qed.
+
+(* xlsb: the EXTERNALS block — BrtBeginExternals, then the supporting links, any number of any kind in any
+   order, then BrtExternSheet — in front of the names: the table the reader builds is [spec_extern_xlsb] *)
+Theorem C14_xlsb_read_names_links_spec : forall show_f64 sheets bp sups xtis ds e p,
+  forallb wf_xti xtis = true -> N.of_nat (length xtis) < 4294967296 ->
+  forallb wf_name_rec ds = true -> is_end_rec e = true ->
+  xlsb_read_names show_f64 sheets
+    ((0x0161, bp) :: map sup_rec_xlsb sups ++
+     (0x016A, enc_externsheet xtis) :: map (fun d => (0x0027, enc_brtname d)) ds ++ [(e, p)])
+  = do r <- spec_names_xlsb show_f64 (spec_extern_xlsb sheets xtis) [] ds;
+    Ok (spec_extern_xlsb sheets xtis, r).
+Proof. exact xlsb_read_names_links_spec. Qed.
+
+Theorem C14_defined_name_text_through_links_xlsb : forall show_f64 sheets links xtis ds r i d e,
+  spec_names_xlsb show_f64 (spec_extern_xlsb sheets xtis) [] ds = Ok r -> nth_error ds i = Some d ->
+  nr_rgce d = encode_xlsb e ->
+  wf_xlsb {| be_sheets := spec_extern_xlsb sheets xtis; be_names := map nr_name ds; be_base := None |} e = true ->
+  known_C14 links xtis e = None ->
+  nth_error r i = Some (nr_name d,
+    render_xlsb show_f64 {| be_sheets := spec_extern_links_xlsb sheets links xtis; be_names := map nr_name ds; be_base := None |} e).
+Proof. exact defined_name_text_through_links_xlsb. Qed.
+
+Theorem C14_defined_name_text_through_links_xls : forall show_f64 sheets gs names xtis i d e,
+  forallb wf_grec gs = true ->
+  xls_read_names show_f64 sheets (flat_map enc_grec gs) = Ok (names, xtis) ->
+  nth_error (lbls_of gs) i = Some d -> lb_rgce d = encode_xls e ->
+  N.of_nat (length (encode_xls e)) < 65536 ->
+  let env := {| xe_sheets := sheets; xe_names := map lb_logical (lbls_of gs); xe_xtis := xtis_of gs; xe_base := None |} in
+  wf_xls env e = true ->
+  known_C14 (links_of gs) (xtis_of gs) e = None ->
+  nth_error names i = Some (lb_logical d, render_xls_links show_f64 (links_of gs) env e).
+Proof. exact defined_name_text_through_links_xls. Qed.
+
+(* an XTI of this workbook means, through the links, what C14_sheet3d_through_xti_* say *)
+Theorem C14_local_xti_through_links : forall links tab_at local x,
+  xti_local links x = true -> sheet_through_link links tab_at local x = local.
+Proof. exact sheet_through_link_local. Qed.
+
+(* the refutations: a file with three supporting links (add-in functions, another workbook with the sheets
+   Data and Other Sheet, this workbook — in that order) and a name through the XTI of the other workbook *)
+Theorem C14_refuted_extern_xls :
+  forallb wf_grec ex_ext_globals = true /\ wf_xls ex_ext_env ex_ext_expr = true /\
+  links_of ex_ext_globals = [SupAddin; SupExt [lit "Data"; lit "Other Sheet"]; SupSelf] /\
+  known_C14 (links_of ex_ext_globals) (xtis_of ex_ext_globals) ex_ext_expr = Some K_EXTERN_BOOK /\
+  known_C14 (links_of ex_ext_globals) (xtis_of ex_ext_globals) (ERef3d CRef 0 A1abs) = None /\
+  xls_read_names (fun _ => []) [lit "S1"; lit "S2"] (flat_map enc_grec ex_ext_globals)
+  = Ok ([(lit "Their", lit "S2!$A$1+S2!$A$1"); (lit "Ours", lit "S2!$A$1")], [(2, 1, 1); (1, 1, 1); (1, 0, 1)]) /\
+  render_xls_links (fun _ => []) (links_of ex_ext_globals) ex_ext_env ex_ext_expr = lit "'[1]Other Sheet'!$A$1+S2!$A$1" /\
+  render_xls_links (fun _ => []) (links_of ex_ext_globals) ex_ext_env (ERef3d CRef 2 A1abs) = lit "'[1]Data:Other Sheet'!$A$1" /\
+  lit "S2!$A$1+S2!$A$1" <> lit "'[1]Other Sheet'!$A$1+S2!$A$1".
+Proof. exact refuted_extern_xls. Qed.
+
+Theorem C14_refuted_extern_xlsb :
+  let sheets := [lit "S1"; lit "S2"] in
+  let links := [SupAddin; SupExt [lit "Data"; lit "Other Sheet"]; SupSelf] in
+  let sups := [(SupAddin, []); (SupExt [lit "Data"; lit "Other Sheet"], enc_wide (lit "rId1")); (SupSelf, [])] in
+  let xtis := [(2, 1, 1); (1, 1, 1); (1, 0, 1)] in
+  let ds := [ {| nr_flags := 0; nr_chkey := 0; nr_itab := 4294967295; nr_name := lit "Their";
+                 nr_rgce := encode_xlsb ex_ext_expr; nr_tail := [] |};
+              {| nr_flags := 0; nr_chkey := 0; nr_itab := 4294967295; nr_name := lit "Ours";
+                 nr_rgce := encode_xlsb (ERef3d CRef 0 A1abs); nr_tail := [] |} ] in
+  let env := {| be_sheets := spec_extern_xlsb sheets xtis; be_names := [lit "Their"; lit "Ours"]; be_base := None |} in
+  let full := {| be_sheets := spec_extern_links_xlsb sheets links xtis; be_names := [lit "Their"; lit "Ours"]; be_base := None |} in
+  map fst sups = links /\ wf_xlsb env ex_ext_expr = true /\
+  known_C14 links xtis ex_ext_expr = Some K_EXTERN_BOOK /\ known_C14 links xtis (ERef3d CRef 0 A1abs) = None /\
+  xlsb_read_names (fun _ => []) sheets
+    ((0x0161, []) :: map sup_rec_xlsb sups ++ (0x016A, enc_externsheet xtis)
+       :: map (fun d => (0x0027, enc_brtname d)) ds ++ [(0x009D, [])])
+  = Ok ([lit "S2"; lit "S2"; lit "S1:S2"], [(lit "Their", lit "S2!$A$1+S2!$A$1"); (lit "Ours", lit "S2!$A$1")]) /\
+  spec_extern_links_xlsb sheets links xtis = [lit "S2"; lit "'[1]Other Sheet'"; lit "'[1]Data:Other Sheet'"] /\
+  render_xlsb (fun _ => []) full ex_ext_expr = lit "'[1]Other Sheet'!$A$1+S2!$A$1" /\
+  lit "S2!$A$1+S2!$A$1" <> lit "'[1]Other Sheet'!$A$1+S2!$A$1".
+Proof. exact refuted_extern_xlsb. Qed.
 
 (* ---------------------------------------------------------------- shared and array formulas (xls) *)
 (* former known class K_PTGEXP, xls half (repaired): the cells of a shared / array formula carry only
@@ -446,12 +572,12 @@ Example C14_xlsb_names_nonvacuous :
     ((0x0165, []) :: (0x016A, enc_externsheet [(0, 1, 1); (0, 4294967294, 4294967294)])
        :: map (fun d => (0x0027, enc_brtname d)) ex_names ++ [(0x009D, [])])
   = Ok ([lit "'O''Neil 2'"; lit "#ThisWorkbook"],
-        [(lit "_xlnm._FilterDatabase", lit "'O''Neil 2'!$A$1:$C$10"); (lit "Rate", lit "5"); ([26085; 128512], lit "Rate*2")]).
+        [(lit "_xlnm._FilterDatabase", lit "'O''Neil 2'!$A$1:$C$10"); (lit "Rate", [26085; 128512; 42; 50]); ([26085; 128512], lit "5")]).
 Proof. exact xlsb_names_nonvacuous. Qed.
 
 Example C14_xls_names_nonvacuous :
   forallb wf_grec ex_globals = true /\
-  xls_read_names (fun _ => []) [lit "S1"; lit "My Sheet"] (map enc_grec ex_globals)
+  xls_read_names (fun _ => []) [lit "S1"; lit "My Sheet"] (flat_map enc_grec ex_globals)
   = Ok ([(lit "_xlnm._FilterDatabase", lit "'My Sheet'!$A$1:$C$10"); ([26085; 128512], lit "S1!$AB$5")], [(0, 1, 1); (0, 0, 0)]).
 Proof. exact xls_names_nonvacuous. Qed.
 
@@ -491,6 +617,32 @@ Example C14_formula_positions_nonvacuous :
             get_value r (2, 3) = Some [] /\ get_value r (0, 0) = None.
 Proof. exact formula_positions_nonvacuous. Qed.
 
+(* ---------- round 9: a name through a span of sheets, the XTI array cut in the middle of an XTI over the
+   ExternSheet record and two CONTINUE records, Lbl records with extra data behind the tokens, a union behind
+   PtgMemFunc, supporting links add-in / other workbook / this workbook with the workbook's own XTIs at link
+   index 2: outside the known class, the full spec is what the reader reports ---------- *)
+Definition ex9_globals : list grec :=
+  [ GSup SupAddin 1 [];
+    GSup (SupExt [lit "Data"]) 1 (lit "b.xls");
+    GSup SupSelf 3 [];
+    GExt [(2, 0, 2); (1, 0, 0); (2, 1, 1)] [5%nat; 7%nat];
+    GLbl {| lb_flags := 32; lb_chkey := 0; lb_itab := 1; lb_wide := false; lb_name := [7];   (* Print_Titles *)
+            lb_rgce := encode_xls (EMem CRef MFunc 0 (EBin 16 (EArea3d CRef 2 (Build_cref 0 0 false false) (Build_cref 65535 1 false false))
+                                                              (EArea3d CRef 0 (Build_cref 0 0 false false) (Build_cref 1 255 false false))));
+            lb_rgcb := [1; 0; 9; 9] |} ].
+Example C14_round9_nonvacuous :
+  let e := EMem CRef MFunc 0 (EBin 16 (EArea3d CRef 2 (Build_cref 0 0 false false) (Build_cref 65535 1 false false))
+                                      (EArea3d CRef 0 (Build_cref 0 0 false false) (Build_cref 1 255 false false))) in
+  let env := {| xe_sheets := [lit "First"; lit "My Sheet"; lit "Last"]; xe_names := [lit "_xlnm.Print_Titles"];
+                xe_xtis := xtis_of ex9_globals; xe_base := None |} in
+  forallb wf_grec ex9_globals = true /\ wf_xls env e = true /\
+  known_C14 (links_of ex9_globals) (xtis_of ex9_globals) e = None /\
+  length (flat_map enc_grec ex9_globals) = 7%nat /\
+  xls_read_names (fun _ => []) [lit "First"; lit "My Sheet"; lit "Last"] (flat_map enc_grec ex9_globals)
+  = Ok ([(lit "_xlnm.Print_Titles", lit "'My Sheet'!$A$1:$B$65536,First:Last!$A$1:$IV$2")], [(2, 0, 2); (1, 0, 0); (2, 1, 1)]) /\
+  render_xls_links (fun _ => []) (links_of ex9_globals) env e = lit "'My Sheet'!$A$1:$B$65536,First:Last!$A$1:$IV$2".
+Proof. vm_compute. repeat split. Qed.
+
 (* ---------------------------------------------------------------- pins *)
 Check C14_push_column_is_letters : forall col buf, col < 2 ^ 32 ->
   push_column col buf = Ok (buf ++ letters col).
@@ -523,6 +675,49 @@ Check C14_xlsb_read_names_spec : forall show_f64 sheets xtis ds e p,
   forallb wf_name_rec ds = true -> is_end_rec e = true ->
   xlsb_read_names show_f64 sheets
     ((0x016A, enc_externsheet xtis) :: map (fun d => (0x0027, enc_brtname d)) ds ++ [(e, p)])
+  = do r <- spec_names_xlsb show_f64 (spec_extern_xlsb sheets xtis) [] ds;
+    Ok (spec_extern_xlsb sheets xtis, r).
+Check C14_defined_name_text_is_render_xlsb : forall show_f64 ext ds r i d e,
+  spec_names_xlsb show_f64 ext [] ds = Ok r -> nth_error ds i = Some d ->
+  nr_rgce d = encode_xlsb e ->
+  wf_xlsb {| be_sheets := ext; be_names := map nr_name ds; be_base := None |} e = true ->
+  nth_error r i = Some (nr_name d, render_xlsb show_f64 {| be_sheets := ext; be_names := map nr_name ds; be_base := None |} e).
+Check C14_defined_name_text_is_render_xls : forall show_f64 sheets gs names xtis i d e,
+  forallb wf_grec gs = true ->
+  xls_read_names show_f64 sheets (flat_map enc_grec gs) = Ok (names, xtis) ->
+  nth_error (lbls_of gs) i = Some d -> lb_rgce d = encode_xls e ->
+  N.of_nat (length (encode_xls e)) < 65536 ->
+  let env := {| xe_sheets := sheets; xe_names := map lb_logical (lbls_of gs); xe_xtis := xtis_of gs; xe_base := None |} in
+  wf_xls env e = true ->
+  nth_error names i = Some (lb_logical d, render_xls show_f64 env e).
+Check C14_sheet3d_through_xti_xls : forall show_f64 sheets gs names xtis i x nm, forallb wf_grec gs = true ->
+  xls_read_names show_f64 sheets (flat_map enc_grec gs) = Ok (names, xtis) ->
+  nth_error (xtis_of gs) i = Some x -> snd (fst x) < 32768 -> snd x < 32768 ->
+  spec_sheet_xls {| xe_sheets := sheets; xe_names := nm; xe_xtis := xtis; xe_base := None |} (N.of_nat i)
+  = match nthN sheets (snd (fst x)), nthN sheets (snd x) with
+    | Some a, Some b => if snd (fst x) =? snd x then sheet_text a else span_text a b
+    | Some a, None => sheet_text a
+    | None, _ => lit "#REF"
+    end.
+Check C14_resolve_xti_span_text : forall sheets first last s t, first < 2147483648 -> last < 2147483648 ->
+  first <> last -> nthN sheets first = Some s -> nthN sheets last = Some t ->
+  resolve_xti sheets first last = span_text s t.
+Check C14_rpn_correct_links_xls : forall show_f64 links env e,
+  wf_xls env e = true -> N.of_nat (length (encode_xls e)) < 65536 ->
+  known_C14 links (xe_xtis env) e = None ->
+  xls_parse_formula show_f64 env (frame_xls (encode_xls e)) = Ok (render_xls_links show_f64 links env e).
+Check C14_rpn_correct_links_xlsb : forall show_f64 sheets links xtis nm base e,
+  wf_xlsb {| be_sheets := spec_extern_xlsb sheets xtis; be_names := nm; be_base := base |} e = true ->
+  known_C14 links xtis e = None ->
+  xlsb_parse_formula show_f64 {| be_sheets := spec_extern_xlsb sheets xtis; be_names := nm; be_base := base |}
+    (encode_xlsb e)
+  = Ok (render_xlsb show_f64 {| be_sheets := spec_extern_links_xlsb sheets links xtis; be_names := nm; be_base := base |} e).
+Check C14_xlsb_read_names_links_spec : forall show_f64 sheets bp sups xtis ds e p,
+  forallb wf_xti xtis = true -> N.of_nat (length xtis) < 4294967296 ->
+  forallb wf_name_rec ds = true -> is_end_rec e = true ->
+  xlsb_read_names show_f64 sheets
+    ((0x0161, bp) :: map sup_rec_xlsb sups ++
+     (0x016A, enc_externsheet xtis) :: map (fun d => (0x0027, enc_brtname d)) ds ++ [(e, p)])
   = do r <- spec_names_xlsb show_f64 (spec_extern_xlsb sheets xtis) [] ds;
     Ok (spec_extern_xlsb sheets xtis, r).
 Check C14_sheet_formulas_xlsb : forall show_f64 sheets names l endd rest,
@@ -583,6 +778,9 @@ Print Assumptions C14_user_function_correct_xlsb.
 Print Assumptions C14_user_function_correct_xls.
 Print Assumptions C14_sheet_name_quoting.
 Print Assumptions C14_resolve_xti_sheet_text.
+Print Assumptions C14_resolve_xti_span_text.
+Print Assumptions C14_sheet_span_quoting.
+Print Assumptions C14_sheet_name_xls_is_spec.
 Print Assumptions C14_formula_positions.
 Print Assumptions C14_xlsb_names_of_records.
 Print Assumptions C14_xlsb_read_names_spec.
@@ -595,6 +793,7 @@ Print Assumptions C14_ptgname_is_ith_record_xls.
 Print Assumptions C14_sheet3d_through_xti_xlsb.
 Print Assumptions C14_sheet3d_through_xti_xls.
 Print Assumptions C14_defined_name_text_is_render_xls.
+Print Assumptions C14_defined_name_text_is_render_xlsb.
 Print Assumptions C14_builtin_names_table.
 Print Assumptions C14_translate_offsets_are_signed.
 Print Assumptions C14_sheet_formulas_xls.
@@ -607,3 +806,11 @@ Print Assumptions C14_shared_formula_members_xlsb.
 Print Assumptions C14_array_formula_members_xlsb.
 Print Assumptions C14_worksheet_formula_members_xlsb.
 Print Assumptions C14_stored_text_positions.
+Print Assumptions C14_rpn_correct_links_xls.
+Print Assumptions C14_rpn_correct_links_xlsb.
+Print Assumptions C14_xlsb_read_names_links_spec.
+Print Assumptions C14_defined_name_text_through_links_xlsb.
+Print Assumptions C14_defined_name_text_through_links_xls.
+Print Assumptions C14_local_xti_through_links.
+Print Assumptions C14_refuted_extern_xls.
+Print Assumptions C14_refuted_extern_xlsb.
